@@ -655,7 +655,6 @@ func (m *machine) finalize(t *rapid.T) {
 			continue
 		}
 		same, cross := sharedDanger(vr, fin, ri)
-		danger := same || cross
 		if (same && ev.Excluded(SigShared)) || (cross && ev.Excluded(SigCross)) {
 			// look for a choice without the precondition, starting from the drawn one
 			found := false
@@ -681,7 +680,6 @@ func (m *machine) finalize(t *rapid.T) {
 		} else if cross {
 			m.crossPre = true
 		}
-		_ = danger
 	}
 	// Two sibling state roots finalized in one version. Real callers never do this and pathbadger must reject it
 	// (without damage); badger supports it and its own tests do it (testPruneLoneRoots) - the sibling without
